@@ -12,7 +12,9 @@ package c13
 
 import (
 	"encoding/json"
+	"errors"
 	"fmt"
+	"io"
 	"net/http/httptest"
 	"net/url"
 	"runtime"
@@ -38,7 +40,9 @@ import (
 	_ "github.com/google/martian/v3/method"
 	_ "github.com/google/martian/v3/noop"
 	_ "github.com/google/martian/v3/pingback"
+	_ "github.com/google/martian/v3/port"
 	_ "github.com/google/martian/v3/querystring"
+	_ "github.com/google/martian/v3/skip"
 	_ "github.com/google/martian/v3/status"
 
 	"verifharness/internal/kit"
@@ -63,12 +67,16 @@ type Op struct {
 	API   bool    `json:"api,omitempty"`    // the exchange is addressed to the proxy's own API
 	Fwd   bool    `json:"fwd,omitempty"`    // with API: marked by passing through the real api.Forwarder (else ctx.APIRequest() directly)
 	NoRes bool    `json:"no_res,omitempty"` // request only
+	Form  string  `json:"form,omitempty"`   // the request carries this application/x-www-form-urlencoded body
 }
 
 // Case is a verifier-bearing tree and a sequential history.
 type Case struct {
 	Tree *tr.Node `json:"tree"`
 	Ops  []Op     `json:"ops"`
+	// Shape names the case in the matrix of shapes that have signatures of
+	// their own (see TestEnumShapes).
+	Shape string `json:"shape,omitempty"`
 }
 
 // ---------------------------------------------------------------- system under test
@@ -188,9 +196,21 @@ func (s *sut) exchange(op *Op) error {
 	case op.API:
 		ctx.APIRequest()
 	}
+	if op.Form != "" {
+		req.Body = io.NopCloser(strings.NewReader(op.Form))
+		req.ContentLength = int64(len(op.Form))
+		req.Header.Set("Content-Type", "application/x-www-form-urlencoded")
+	}
 	if s.reqmod != nil {
 		if err := s.reqmod.ModifyRequest(req); err != nil {
 			return fmt.Errorf("ModifyRequest: %v", err)
+		}
+	}
+	if op.Form != "" {
+		// verifiers only look: what is forwarded is the body as it came
+		left, _ := io.ReadAll(req.Body)
+		if string(left) != op.Form {
+			return fmt.Errorf("%w: %d of %d bytes are left to forward", errBodyConsumed, len(left), len(op.Form))
 		}
 	}
 	if !op.NoRes && s.resmod != nil {
@@ -200,6 +220,8 @@ func (s *sut) exchange(op *Op) error {
 	}
 	return nil
 }
+
+var errBodyConsumed = errors.New("the request body was consumed while the request passed the verifier tree")
 
 func (s *sut) query() ([]string, error) {
 	rw := httptest.NewRecorder()
@@ -554,7 +576,9 @@ func runSequential(c Case) kit.Verdict {
 		case "X":
 			unmet, pinged, lv := predict(c.Tree, op)
 			v = append(v, lv...)
-			if err := s.exchange(op); err != nil {
+			if err := s.exchange(op); errors.Is(err, errBodyConsumed) {
+				v.Addf("C13/traffic/request-body-consumed", "step %d: %v", i, err)
+			} else if err != nil {
 				v.Addf("C13/traffic/verifier-returned-error", "step %d: %v (verifiers must not fail the message)", i, err)
 			}
 			m.applyExchange(unmet, pinged, op.API)
@@ -708,6 +732,14 @@ func classes(c Case) []string {
 	if s.notUnderFifo {
 		cl = append(cl, "verifier-not-under-fifo")
 	}
+	c.Tree.Walk(func(n *tr.Node, _ int) {
+		if n.T == tr.URLRegexFilter && (len(tr.Verifiers(n, tr.Request))+len(tr.Verifiers(n, tr.Response)) > 0) {
+			cl = appendOnce(cl, "verifier-under-url-regex-filter")
+		}
+		if n.T == tr.SkipRoundTrip && n.Acts(tr.Request) && s.kinds["status"] {
+			cl = appendOnce(cl, "skip-roundtrip-and-status-verifier")
+		}
+	})
 	resets, apis, _, _ := opStats(c.Ops)
 	if resets >= 2 {
 		cl = append(cl, "resets>=2")
@@ -754,6 +786,7 @@ type gen struct {
 	next     int
 	maxDepth int
 	maxWidth int
+	noSkip   bool
 }
 
 func (g *gen) id() int { g.next++; return g.next }
@@ -815,10 +848,15 @@ func (g *gen) node(depth int) *tr.Node {
 		k = 40 + k // a bare verifier as the whole configuration comes with maxdepth 1
 	}
 	switch {
-	case k < 36:
+	case k < 33:
 		return g.verifier()
 	case k < 40:
 		n := &tr.Node{ID: g.id(), T: tr.Noop, P: map[string]string{"name": "inert"}}
+		if k >= 35 && !g.noSkip {
+			// the exchange's round trip is skipped (the proxy answers itself):
+			// its response is traffic like any other
+			n.T, n.P = tr.SkipRoundTrip, nil
+		}
 		tr.GenScope(t, n)
 		return n
 	case k < 68:
@@ -831,7 +869,13 @@ func (g *gen) node(depth int) *tr.Node {
 		return n
 	default:
 		n := &tr.Node{ID: g.id(), P: map[string]string{}}
-		tr.GenFilterCond(t, n)
+		if uni(t, "urlregex", 6) == 0 {
+			// the sixth filter built on filter.Filter: a regular expression on the whole URL
+			n.T = tr.URLRegexFilter
+			n.P["regex"] = pick(t, "regex", []string{`example\.com`, `/x`, `^https`, `q=1`, `\.org/`})
+		} else {
+			tr.GenFilterCond(t, n)
+		}
 		n.Then = g.node(depth + 1)
 		if uni(t, "else", 4) > 0 {
 			n.Else = g.node(depth + 1)
@@ -841,8 +885,12 @@ func (g *gen) node(depth int) *tr.Node {
 	}
 }
 
-func genTree(t *rapid.T) *tr.Node {
-	g := &gen{t: t, maxDepth: 1 + uni(t, "maxdepth", 4), maxWidth: kit.N(3, 4)}
+func genTree(t *rapid.T) *tr.Node { return genTreeOpt(t, false) }
+
+// genTreeOpt: noSkip keeps skip.RoundTrip out of the tree (the end-to-end
+// variant scripts the origin's answers).
+func genTreeOpt(t *rapid.T, noSkip bool) *tr.Node {
+	g := &gen{t: t, maxDepth: 1 + uni(t, "maxdepth", 4), maxWidth: kit.N(3, 4), noSkip: noSkip}
 	return g.node(1)
 }
 
@@ -944,7 +992,7 @@ var propSequential = &kit.Prop[Case]{
 	Gates: map[string]float64{
 		"verifier-in-else": 0.15, "response-verifier-in-else": 0.05, "resets>=2": 0.30, "has-api-request": 0.40,
 		"unmet-recorded": 0.40, "unmet-then-reset": 0.25, "api-request-would-be-unmet": 0.20, "unmet-in-else-branch": 0.08,
-		"unparsable-query-with-querystring-verifier": 0.10, "api-mark:direct": 0.15, "api-mark:url-virtual-host": 0.25, "api-mark:url-already-forwarder-target": 0.25, "api-mark:url-names-target-in-other-spelling": 0.25,
+		"unparsable-query-with-querystring-verifier": 0.10, "verifier-under-url-regex-filter": 0.05, "skip-roundtrip-and-status-verifier": 0.02, "api-mark:direct": 0.15, "api-mark:url-virtual-host": 0.25, "api-mark:url-already-forwarder-target": 0.25, "api-mark:url-names-target-in-other-spelling": 0.25,
 	},
 }
 
@@ -962,7 +1010,7 @@ func TestHistories(t *testing.T) {
 // reset, query. This is the matrix in which the anticipated defects live.
 var propEnum = &kit.Prop[Case]{
 	ID: "C13", Name: "enum-branch-matrix",
-	Rule: "ALL 5 filter kinds x {modifier, else} branch x 7 verifier types x {bare filter, filter inside a fifo group} x {ordinary, API marked directly, API by virtual host through the forwarder, API by the forwarder's own target URL through the forwarder} exchange that reaches the verifier with an unmet expectation, then query, reset, query; plus 4 unparsable query pairs x {alone, after, before a pair that decodes} x expected key {decoded, not decoded} x {bare, in a group} on one querystring.Verifier; non-trivial = same rule as the histories check",
+	Rule: "ALL 6 filter kinds built on filter.Filter (url, header, querystring, method, cookie, url.RegexFilter) x {modifier, else} branch x 7 verifier types x {bare filter, filter inside a fifo group} x {ordinary, API marked directly, API by virtual host through the forwarder, API by the forwarder's own target URL through the forwarder} exchange that reaches the verifier with an unmet expectation, then query, reset, query; plus every verifier type after a skip.RoundTrip in a group; plus 4 unparsable query pairs x {alone, after, before a pair that decodes} x expected key {decoded, not decoded} x {bare, in a group} on one querystring.Verifier; non-trivial = same rule as the histories check",
 	Run:  runSequential, NonTrivial: nontrivial, Classes: classes,
 }
 
@@ -975,11 +1023,12 @@ func TestEnum(t *testing.T) {
 	rs := tr.Res{Status: 500, Header: map[string][]string{"X-B": {"1"}, "Set-Cookie": {"c=1"}}}
 	// conditions that hold / fail on both sides of that exchange
 	conds := map[string][2]map[string]string{
-		tr.URLFilter:    {{"path": "/x"}, {"path": "/y"}},
-		tr.HeaderFilter: {{"name": "X-B", "value": "1"}, {"name": "X-B", "value": "2"}},
-		tr.QueryFilter:  {{"name": "p", "value": "1"}, {"name": "q"}},
-		tr.MethodFilter: {{"method": "put"}, {"method": "GET"}},
-		tr.CookieFilter: {{"name": "c"}, {"name": "d"}},
+		tr.URLFilter:      {{"path": "/x"}, {"path": "/y"}},
+		tr.HeaderFilter:   {{"name": "X-B", "value": "1"}, {"name": "X-B", "value": "2"}},
+		tr.QueryFilter:    {{"name": "p", "value": "1"}, {"name": "q"}},
+		tr.MethodFilter:   {{"method": "put"}, {"method": "GET"}},
+		tr.CookieFilter:   {{"name": "c"}, {"name": "d"}},
+		tr.URLRegexFilter: {{"regex": "/x"}, {"regex": "/y"}},
 	}
 	verifiers := []*tr.Node{
 		{T: tr.StatusVerifier, N: 200},
@@ -991,7 +1040,22 @@ func TestEnum(t *testing.T) {
 		{T: tr.PingbackVerifier, P: map[string]string{"path": "/x"}},
 	}
 	propEnum.Enumerate(t, func(yield func(Case) bool) {
-		for _, fk := range []string{tr.URLFilter, tr.HeaderFilter, tr.QueryFilter, tr.MethodFilter, tr.CookieFilter} {
+		// an exchange whose round trip is skipped is traffic like any other
+		for _, vt := range verifiers {
+			for wrap := 0; wrap < 2; wrap++ {
+				v := *vt
+				v.ID = 3
+				root := &tr.Node{ID: 1, T: tr.Fifo, Kids: []*tr.Node{{ID: 2, T: tr.SkipRoundTrip}, &v}}
+				if wrap == 1 {
+					root = &tr.Node{ID: 5, T: tr.Fifo, Kids: []*tr.Node{root}}
+				}
+				q, s := rq, rs
+				if !yield(Case{Tree: root, Ops: []Op{{K: "X", Req: &q, Res: &s}, {K: "V"}, {K: "Z"}, {K: "V"}}}) {
+					return
+				}
+			}
+		}
+		for _, fk := range []string{tr.URLFilter, tr.HeaderFilter, tr.QueryFilter, tr.MethodFilter, tr.CookieFilter, tr.URLRegexFilter} {
 			for branch := 0; branch < 2; branch++ {
 				for _, vt := range verifiers {
 					for wrap := 0; wrap < 2; wrap++ {
@@ -1044,6 +1108,87 @@ func TestEnum(t *testing.T) {
 						}
 					}
 				}
+			}
+		}
+	})
+}
+
+// ---------------------------------------------------------------- shapes with signatures of their own
+
+// runShape is runSequential with the signature rebuilt from the case's shape:
+// C13/<clause>/<shape>/<class>.
+func runShape(c Case) kit.Verdict {
+	v := runSequential(c)
+	for i := range v {
+		seg := strings.Split(v[i].Sig, "/")
+		if len(seg) >= 3 {
+			v[i].Sig = "C13/" + seg[1] + "/" + c.Shape + "/" + seg[len(seg)-1]
+		}
+	}
+	return dedupe(v)
+}
+
+var propShapes = &kit.Prop[Case]{
+	ID: "C13", Name: "enum-shapes",
+	Rule: "ALL of: 7 verifier types below a port.Filter / a header.RegexFilter whose condition holds x {bare, inside a group}: unmet exchange, query, reset, query (the statement says 'under FIFO groups and filters'); a querystring.Verifier and a POST whose url-encoded body, not its query, carries the expected parameter (and the body must be left to forward); header.Verifier{Content-Length} on a response carrying Content-Length: 0; non-trivial = all",
+	Run:  runShape,
+}
+
+func TestEnumShapes(t *testing.T) {
+	if kit.Race() {
+		t.Skip()
+	}
+	rq := tr.Req{Method: "PUT", Scheme: "http", Host: "example.com", Path: "/x", Query: "p=1", HostH: "example.com",
+		Header: map[string][]string{"X-B": {"1"}}}
+	rs := tr.Res{Status: 500, Header: map[string][]string{"X-B": {"1"}}}
+	verifiers := []*tr.Node{
+		{T: tr.StatusVerifier, N: 200},
+		{T: tr.HeaderVerifier, P: map[string]string{"name": "X-A"}},
+		{T: tr.MethodVerifier, P: map[string]string{"method": "GET"}},
+		{T: tr.URLVerifier, P: map[string]string{"path": "/y"}},
+		{T: tr.QueryVerifier, P: map[string]string{"name": "q"}},
+		{T: tr.FailureVerifier, P: map[string]string{"message": "fail"}},
+		{T: tr.PingbackVerifier, P: map[string]string{"path": "/never"}},
+	}
+	wrapped := func(n *tr.Node, wrap int) *tr.Node {
+		if wrap == 1 {
+			return &tr.Node{ID: 1, T: tr.Fifo, Kids: []*tr.Node{n}}
+		}
+		return n
+	}
+	std := func(q tr.Req, s tr.Res, form string) []Op {
+		return []Op{{K: "X", Req: &q, Res: &s, Form: form}, {K: "V"}, {K: "Z"}, {K: "V"}}
+	}
+	propShapes.Enumerate(t, func(yield func(Case) bool) {
+		for _, f := range []*tr.Node{
+			{T: tr.PortFilter, N: 80},
+			{T: tr.RegexFilter, P: map[string]string{"header": "X-B", "regex": "^1$"}},
+		} {
+			shape := map[string]string{tr.PortFilter: "verifier-under-port-filter", tr.RegexFilter: "verifier-under-regex-filter"}[f.T]
+			for _, vt := range verifiers {
+				for wrap := 0; wrap < 2; wrap++ {
+					v, ff := *vt, *f
+					v.ID, ff.ID, ff.Then = 3, 2, &v
+					if !yield(Case{Tree: wrapped(&ff, wrap), Ops: std(rq, rs, ""), Shape: shape}) {
+						return
+					}
+				}
+			}
+		}
+		for wrap := 0; wrap < 2; wrap++ {
+			// the expected parameter is in the body only: the query string does not have it
+			q := rq
+			q.Method = "POST"
+			root := wrapped(&tr.Node{ID: 3, T: tr.QueryVerifier, P: map[string]string{"name": "k"}}, wrap)
+			if !yield(Case{Tree: root, Ops: std(q, rs, "k=1&z=2"), Shape: "querystring-verifier-form-body"}) {
+				return
+			}
+			// a response that carries Content-Length: 0 has the header
+			s := rs
+			s.CL = 0
+			root = wrapped(&tr.Node{ID: 3, T: tr.HeaderVerifier, HasScope: true, Scope: []string{"response"}, P: map[string]string{"name": "Content-Length"}}, wrap)
+			if !yield(Case{Tree: root, Ops: std(rq, s, ""), Shape: "header-verifier-content-length-zero-response"}) {
+				return
 			}
 		}
 	})
@@ -1366,4 +1511,6 @@ func TestConcurrent(t *testing.T) {
 	propConcurrent.Check(t, n)
 }
 
-func TestReplay(t *testing.T) { kit.Replay(t, propSequential, propEnum, propConcurrent) }
+func TestReplay(t *testing.T) {
+	kit.Replay(t, propSequential, propEnum, propShapes, propConcurrent, propWire)
+}
